@@ -72,6 +72,7 @@ func moreFacts(b *strings.Builder, root *pkgFiles, repo string) {
 	templateFacts(b, repo)
 	trackerFacts(b, repo)
 	lockFacts(b, repo)
+	idpFacts(b, root)
 }
 
 // dsigConstants resolves the string constants of the goxmldsig module the repository builds against.
